@@ -220,6 +220,26 @@ class BytesFam(Family):
                     break
                 if done:
                     break
+        # the same boundary from the other side — what coincides when the length is written only for a
+        # NON-EMPTY batch: block A without commands whose certificate C begins like "length, batch" (its view
+        # is the batch length, its hash the first 32 bytes of the batch, its one-part multi-signature the rest),
+        # and block B with that batch and an unsigned certificate
+        for _ in range(6):
+            D = 72
+            data = bytearray(self.rbytes(rng, D, D))
+            cs = [(0, 0, bytes(data))]
+            T = len(batch_bytes(cs))                # 76: 0a 4a 1a 48 data
+            off = T - D                             # data starts here
+            hq, vq = self.rhash(rng), rng.randrange(0, 50)
+            c2 = qc_bytes(vq, hq, None)             # 40 bytes
+            # bytes 32.. of (batch ++ c2) must read: count=1, id=1, then the part (id=1, length, signature)
+            data[32 - off:48 - off] = u32(1) + u32(1) + u32(1) + u32(T + len(c2) - 32 - 16)
+            cs = [(0, 0, bytes(data))]
+            bb = batch_bytes(cs) + c2
+            sigpart = bb[48:]
+            parent, prop, view, ts = self.rhash(rng), rng.randrange(1, 8), rng.randrange(100, 2 ** 40), rng.randrange(2 ** 62)
+            out.append(self.block_line(parent, prop, view, ts, [], T, bb[:32], ("multi", [(1, sigpart)]), letter))
+            out.append(self.block_line(parent, prop, view, ts, cs, vq, hq, None, letter))
         return out
 
     def generate(self, tier, rng):
